@@ -1,130 +1,241 @@
 import Proofs.C13Exec
+import Proofs.C13Conc
 /-!
 # C13 — retries, idempotence and speculative execution (property theorems)
 
-Model: `Model/Executor.lean` (`queryExecutor.do` as a function of the host iterator's output, per-host
-availability, the per-attempt outcomes and the retry policy's two decision functions; `executeQuery`'s
-choice of how many executions to start). All theorems: every host sequence, every outcome sequence,
-every policy (arbitrary decision functions unless stated).
+Model: `Model/Executor.lean` (`queryExecutor.do` as a function of the statement kind handed to it — `*Query`
+or `*Batch` (logged / unlogged / counter), observed or not —, the host iterator's output, per-host
+availability, the per-request outcomes, the retry policy's decision functions and the statement's attempt
+counter and consistency level, which are state of the model; `executeQuery`'s choice of how many executions
+to start) and `Model/ExecutorConc.lean` (concurrent executions sharing the attempt counter and the host
+iterator). All theorems: every statement kind, every host sequence, every outcome sequence, every starting
+value of the counter, every policy (arbitrary decision functions unless stated), every schedule.
 -/
 namespace C13
 open Executor
 
-/-- **budget**: with SimpleRetryPolicy{N} (and ExponentialBackoff{N}, same decisions) the query reaches
-    servers at most N+1 times, whatever the outcomes and hosts -/
-theorem C13_budget_simple (N : Nat) (outcome : Nat → Res) (fuel : Nat) (hosts : List Host) :
-    (doQuery (some (simplePolicy N)) outcome fuel hosts 0).attempts.length ≤ N + 1 := by
-  unfold doQuery
-  cases nextUsable hosts with
-  | none => have := doLoop_budget (simplePolicy N) N (fun _ => rfl) outcome fuel none [] 0 none [] (by omega); simpa using this
-  | some p => have := doLoop_budget (simplePolicy N) N (fun _ => rfl) outcome fuel (some p.1) p.2 0 none [] (by omega); simpa using this
+/-- **attempt accounting**: `Query.attempt` and `Batch.attempt` move the counter by exactly one, whatever the
+    statement kind and whether or not an observer is attached -/
+theorem C13_attempt_counted (req : Req) (cnt : Nat) : req.record cnt = cnt + 1 := Req.record_eq req cnt
 
-theorem C13_budget_downgrading (L : Nat) (outcome : Nat → Res) (fuel : Nat) (hosts : List Host) :
-    (doQuery (some (downgradingPolicy L)) outcome fuel hosts 0).attempts.length ≤ L + 1 := by
+/-- **budget, every statement kind**: with a retry policy of the form `Attempts() ≤ N` a statement whose counter
+    stands at `cnt` reaches servers at most `1 + (N - cnt)` times — for `*Query` and every `*Batch` type,
+    observed or not, whatever the outcomes, hosts and consistency -/
+theorem C13_budget_any_kind (req : Req) (p : Policy) (N : Nat) (hp : ∀ m, p.attempt m = decide (m ≤ N))
+    (outcome : Nat → Res) (fuel : Nat) (hosts : List Host) (k cnt cons : Nat) :
+    (doQuery req (some p) outcome fuel hosts k cnt cons).attempts.length ≤ 1 + (N - cnt) := by
   unfold doQuery
   cases nextUsable hosts with
-  | none => have := doLoop_budget (downgradingPolicy L) L (fun _ => rfl) outcome fuel none [] 0 none [] (by omega); simpa using this
-  | some p => have := doLoop_budget (downgradingPolicy L) L (fun _ => rfl) outcome fuel (some p.1) p.2 0 none [] (by omega); simpa using this
+  | none => exact doLoop_budget req p N hp outcome fuel none [] k cnt cons none
+  | some q => exact doLoop_budget req p N hp outcome fuel (some q.1) q.2 k cnt cons none
+
+/-- SimpleRetryPolicy{N} (and ExponentialBackoff{N}, same decisions): a fresh statement reaches servers at most
+    N+1 times -/
+theorem C13_budget_simple (req : Req) (N : Nat) (outcome : Nat → Res) (fuel : Nat) (hosts : List Host) (k cons : Nat) :
+    (doQuery req (some (simplePolicy N)) outcome fuel hosts k 0 cons).attempts.length ≤ N + 1 := by
+  have := C13_budget_any_kind req (simplePolicy N) N (fun _ => rfl) outcome fuel hosts k 0 cons
+  omega
+
+theorem C13_budget_exponential (req : Req) (N : Nat) (outcome : Nat → Res) (fuel : Nat) (hosts : List Host) (k cons : Nat) :
+    (doQuery req (some (exponentialPolicy N)) outcome fuel hosts k 0 cons).attempts.length ≤ N + 1 := by
+  have := C13_budget_any_kind req (exponentialPolicy N) N (fun _ => rfl) outcome fuel hosts k 0 cons
+  omega
+
+/-- DowngradingConsistencyRetryPolicy with the levels `ls`: at most `1 + |ls|` requests -/
+theorem C13_budget_downgrading (req : Req) (ls : List Nat) (outcome : Nat → Res) (fuel : Nat) (hosts : List Host) (k cons : Nat) :
+    (doQuery req (some (downgradingPolicyL ls)) outcome fuel hosts k 0 cons).attempts.length ≤ ls.length + 1 := by
+  have := C13_budget_any_kind req (downgradingPolicyL ls) ls.length (fun _ => rfl) outcome fuel hosts k 0 cons
+  omega
 
 /-- no retry policy: at most one attempt -/
-theorem C13_no_policy_once (outcome : Nat → Res) (fuel : Nat) (hosts : List Host) (n0 : Nat) :
-    (doQuery none outcome fuel hosts n0).attempts.length ≤ 1 := by
+theorem C13_no_policy_once (req : Req) (outcome : Nat → Res) (fuel : Nat) (hosts : List Host) (k cnt cons : Nat) :
+    (doQuery req none outcome fuel hosts k cnt cons).attempts.length ≤ 1 := by
   unfold doQuery
   cases nextUsable hosts with
   | none => cases fuel <;> simp [doLoop]
   | some p =>
     cases fuel with
     | zero => simp [doLoop]
-    | succ f => simp only [doLoop]; cases outcome n0 <;> simp
+    | succ f => simp only [doLoop]; cases outcome k <;> simp
+
+theorem doQuery_good (req : Req) (pol : Option Policy) (outcome : Nat → Res) (fuel : Nat) (hosts : List Host) (k cnt cons : Nat) :
+    Good outcome ((usable hosts).map (·.id)) k cnt none (doQuery req pol outcome fuel hosts k cnt cons) := by
+  unfold doQuery
+  rcases nextUsable_spec hosts with ⟨hn, hu⟩ | ⟨h, rest, hn, hu⟩
+  · simp only [hn]
+    have := doLoop_good req pol outcome fuel none [] k cnt cons none
+    rw [hu]; simpa [usable] using this
+  · simp only [hn]
+    have := doLoop_good req pol outcome fuel (some h) rest k cnt cons none
+    rw [hu]; simpa using this
+
+/-- **attempts are accounted**: afterwards `Attempts()` = its previous value + the number of requests sent; the
+    i-th of them was numbered `cnt + i` for the observer and got the i-th outcome -/
+theorem C13_attempts_accounted (req : Req) (pol : Option Policy) (outcome : Nat → Res) (fuel : Nat) (hosts : List Host)
+    (k cnt cons : Nat) :
+    let out := doQuery req pol outcome fuel hosts k cnt cons
+    out.cnt = cnt + out.attempts.length ∧
+    (∀ i a, out.attempts[i]? = some a → a.idx = cnt + i ∧ a.res = outcome (k + i)) := by
+  have h := doQuery_good req pol outcome fuel hosts k cnt cons
+  exact ⟨h.2.1, h.2.2.1⟩
 
 /-- **host choice**: the attempts walk along the usable hosts in the order the policy offered them: each
     attempt is on the same host as the previous one (Retry) or on the next usable host (RetryNextHost);
     down hosts and hosts without a connection are skipped and consume no budget (they do not appear). -/
-theorem C13_host_choice (pol : Option Policy) (outcome : Nat → Res) (fuel : Nat) (hosts : List Host) (n0 : Nat) :
-    Walk ((usable hosts).map (·.id)) (doQuery pol outcome fuel hosts n0).attempts := by
-  unfold doQuery
-  rcases nextUsable_spec hosts with ⟨hn, hu⟩ | ⟨h, rest, hn, hu⟩
-  · simp only [hn]
-    obtain ⟨s, h1, h2, -⟩ := doLoop_spec pol outcome fuel none [] n0 none []
-    simp only [List.reverse_nil, List.nil_append] at h1
-    rw [h1, hu]
-    simpa [usable] using h2
-  · simp only [hn]
-    obtain ⟨s, h1, h2, -⟩ := doLoop_spec pol outcome fuel (some h) rest n0 none []
-    simp only [List.reverse_nil, List.nil_append] at h1
-    rw [h1, hu]
-    simpa using h2
+theorem C13_host_choice (req : Req) (pol : Option Policy) (outcome : Nat → Res) (fuel : Nat) (hosts : List Host)
+    (k cnt cons : Nat) :
+    Walk ((usable hosts).map (·.id)) ((doQuery req pol outcome fuel hosts k cnt cons).attempts.map (·.host)) :=
+  (doQuery_good req pol outcome fuel hosts k cnt cons).1
 
 /-- **one result, the last attempt's**: the returned iter is the last attempt's (`last`), or carries the last
     attempt's error when the hosts ran out (`lastErr`), or ErrNoConnections exactly when nothing was attempted -/
-theorem C13_one_result_last_error (pol : Option Policy) (outcome : Nat → Res) (fuel : Nat) (hosts : List Host) (n0 : Nat) :
-    let out := doQuery pol outcome fuel hosts n0
-    (∀ r, out.final = .last r → out.attempts ≠ [] ∧ r = outcome (n0 + out.attempts.length - 1)) ∧
-    (∀ k, out.final = .lastErr k → out.attempts ≠ [] ∧ outcome (n0 + out.attempts.length - 1) = .err k) ∧
+theorem C13_one_result_last_error (req : Req) (pol : Option Policy) (outcome : Nat → Res) (fuel : Nat) (hosts : List Host)
+    (k cnt cons : Nat) :
+    let out := doQuery req pol outcome fuel hosts k cnt cons
+    (∀ r, out.final = .last r → ∃ a, out.attempts.getLast? = some a ∧ a.res = r) ∧
+    (∀ e, out.final = .lastErr e → ∃ a, out.attempts.getLast? = some a ∧ a.res = .err e) ∧
     (out.final = .noConnections → out.attempts = []) := by
+  have h := doQuery_good req pol outcome fuel hosts k cnt cons
+  refine ⟨h.2.2.2.1, ?_, fun hf => (h.2.2.2.2.2 hf).1⟩
+  intro e he
+  rcases h.2.2.2.2.1 e he with ⟨_, g⟩ | g
+  · simp at g
+  · exact g
+
+/-- a logical error (context cancelled / deadline / not found) ends the statement at once, whatever the policy -/
+theorem C13_context_stops (req : Req) (pol : Option Policy) (outcome : Nat → Res) (fuel : Nat) (h : Host) (rest : List Host)
+    (k cnt cons : Nat) (ho : outcome k = .logical) :
+    doLoop req pol outcome (fuel+1) (some h) rest k cnt cons none = ⟨[⟨h.id, cnt, cons, .logical⟩], .last .logical, cnt + 1, cons⟩ := by
+  simp [doLoop, ho, Req.record_eq]
+
+/-- a context that is already done when the execution starts: nothing reaches a server, the one attempt is still
+    counted, no retry -/
+theorem C13_context_done_before (req : Req) (pol : Option Policy) (outcome : Nat → Res) (fuel : Nat) (hosts : List Host)
+    (k cnt cons : Nat) :
+    let r := execute req pol outcome fuel hosts k cnt cons true
+    r.sent = [] ∧ r.out.attempts.length ≤ 1 ∧ r.out.cnt = cnt + r.out.attempts.length ∧ r.ctxDone = true := by
+  simp only [execute, if_true]
+  cases nextUsable hosts with
+  | none => simp
+  | some p => simp [Req.record_eq]
+
+/-- what reaches servers in one execution (context done or not) stays within the budget -/
+theorem C13_budget_execute (req : Req) (p : Policy) (N : Nat) (hp : ∀ m, p.attempt m = decide (m ≤ N))
+    (outcome : Nat → Res) (fuel : Nat) (hosts : List Host) (k cnt cons : Nat) (done : Bool) :
+    (execute req (some p) outcome fuel hosts k cnt cons done).sent.length ≤ 1 + (N - cnt) := by
+  cases done with
+  | true =>
+    have h : (execute req (some p) outcome fuel hosts k cnt cons true).sent = [] :=
+      (C13_context_done_before req (some p) outcome fuel hosts k cnt cons).1
+    rw [h]; simp
+  | false =>
+    simp only [execute, Bool.false_eq_true, if_false]
+    exact C13_budget_any_kind req p N hp outcome fuel hosts k cnt cons
+
+/-- Rethrow and Ignore stop retrying; an unknown retry type yields ErrUnknownRetryType -/
+theorem C13_rethrow_ignore_stop (req : Req) (p : Policy) (outcome : Nat → Res) (fuel : Nat) (h : Host) (rest : List Host)
+    (k cnt cons e : Nat) (ho : outcome k = .err e) (hrt : p.rtype e = .rethrow ∨ p.rtype e = .ignore) :
+    let o := doLoop req (some p) outcome (fuel+1) (some h) rest k cnt cons none
+    o.attempts = [⟨h.id, cnt, cons, .err e⟩] ∧ o.final = .last (.err e) := by
+  simp only [doLoop, ho, Req.record_eq]
+  by_cases hat : p.attempt (cnt+1) = true
+  · rcases hrt with hrt | hrt <;> simp [hat, hrt]
+  · have : p.attempt (cnt+1) = false := by simpa using hat
+    simp [this]
+
+theorem C13_unknown_retry_type (req : Req) (p : Policy) (outcome : Nat → Res) (fuel : Nat) (h : Host) (rest : List Host)
+    (k cnt cons e : Nat) (ho : outcome k = .err e) (hat : p.attempt (cnt+1) = true) (hrt : p.rtype e = .unknown) :
+    (doLoop req (some p) outcome (fuel+1) (some h) rest k cnt cons none).final = .unknownRetryType := by
+  simp [doLoop, ho, hat, hrt, Req.record_eq]
+
+/-- **consistency under the downgrading policy**: the first request of a fresh statement carries the statement's
+    own level, the (i+1)-th retry the i-th configured level -/
+theorem C13_downgrading_consistency (req : Req) (ls : List Nat) (outcome : Nat → Res) (fuel : Nat) (hosts : List Host)
+    (k cons : Nat) :
+    let out := doQuery req (some (downgradingPolicyL ls)) outcome fuel hosts k 0 cons
+    (∀ a, out.attempts[0]? = some a → a.cons = cons) ∧
+    (∀ i b, out.attempts[i+1]? = some b → ls[i]? = some b.cons) := by
   intro out
-  have key : ∀ cur rest, out = doLoop pol outcome fuel cur rest n0 none [] →
-      (∀ r, out.final = .last r → out.attempts ≠ [] ∧ r = outcome (n0 + out.attempts.length - 1)) ∧
-      (∀ k, out.final = .lastErr k → out.attempts ≠ [] ∧ outcome (n0 + out.attempts.length - 1) = .err k) ∧
-      (out.final = .noConnections → out.attempts = []) := by
+  have hb : out.attempts.length ≤ ls.length + 1 := C13_budget_downgrading req ls outcome fuel hosts k cons
+  have key : ∀ cur rest, out = doLoop req (some (downgradingPolicyL ls)) outcome fuel cur rest k 0 cons none →
+      (∀ a, out.attempts[0]? = some a → a.cons = cons) ∧
+      (∀ i b, out.attempts[i+1]? = some b → ls[i]? = some b.cons) := by
     intro cur rest ho
-    obtain ⟨s, h1, _, h3, h4, h5⟩ := doLoop_spec pol outcome fuel cur rest n0 none []
-    simp only [List.reverse_nil, List.nil_append] at h1
-    rw [← ho] at h1 h3 h4 h5
-    rw [h1]
-    refine ⟨h3, ?_, fun h => (h5 h).1⟩
-    intro k hk
-    rcases h4 k hk with ⟨_, h⟩ | h
-    · simp at h
-    · exact h
+    have h := doLoop_cons req (downgradingPolicyL ls) outcome fuel cur rest k 0 cons none
+    simp only [← ho] at h
+    refine ⟨h.1, ?_⟩
+    intro i b hbi
+    have hlt : i + 1 < out.attempts.length := by
+      rcases Nat.lt_or_ge (i + 1) out.attempts.length with g | g
+      · exact g
+      · rw [List.getElem?_eq_none g] at hbi; simp at hbi
+    have hi : i < out.attempts.length := by omega
+    have ha : out.attempts[i]? = some (out.attempts[i]) := List.getElem?_eq_getElem hi
+    have := h.2 i _ b ha hbi
+    have hl : i < ls.length := by omega
+    simp only [downgradingPolicyL, Nat.zero_add, Nat.add_sub_cancel, Nat.add_one_ne_zero, if_false,
+      List.getElem?_eq_getElem hl, Option.getD_some] at this
+    rw [List.getElem?_eq_getElem hl, this]
   show _
-  unfold doQuery at *
   cases hn : nextUsable hosts with
   | none => exact key none [] (by simp [out, doQuery, hn])
   | some p => exact key (some p.1) p.2 (by simp [out, doQuery, hn])
 
-/-- a logical error (context cancelled / deadline / not found) ends the query at once, whatever the policy -/
-theorem C13_context_stops (pol : Option Policy) (outcome : Nat → Res) (fuel : Nat) (h : Host) (rest : List Host)
-    (n : Nat) (ho : outcome n = .logical) :
-    doLoop pol outcome (fuel+1) (some h) rest n none [] = ⟨[h.id], .last .logical⟩ := by
-  simp [doLoop, ho]
-
-/-- Rethrow and Ignore stop retrying; an unknown retry type yields ErrUnknownRetryType -/
-theorem C13_rethrow_ignore_stop (p : Policy) (outcome : Nat → Res) (fuel : Nat) (h : Host) (rest : List Host)
-    (n k : Nat) (ho : outcome n = .err k) (hrt : p.rtype k = .rethrow ∨ p.rtype k = .ignore) :
-    doLoop (some p) outcome (fuel+1) (some h) rest n none [] = ⟨[h.id], .last (.err k)⟩ := by
-  simp only [doLoop, ho]
-  by_cases hat : p.attempt (n+1) = true
-  · rcases hrt with hrt | hrt <;> simp [hat, hrt]
-  · have : p.attempt (n+1) = false := by simpa using hat
-    simp [this]
-
-theorem C13_unknown_retry_type (p : Policy) (outcome : Nat → Res) (fuel : Nat) (h : Host) (rest : List Host)
-    (n k : Nat) (ho : outcome n = .err k) (hat : p.attempt (n+1) = true) (hrt : p.rtype k = .unknown) :
-    (doLoop (some p) outcome (fuel+1) (some h) rest n none []).final = .unknownRetryType := by
-  simp [doLoop, ho, hat, hrt]
-
-/-- a query not marked idempotent is never executed speculatively -/
+/-- a statement not marked idempotent is never executed speculatively; a batch is idempotent only if every entry is -/
 theorem C13_nonidempotent_not_speculative (spAttempts : Nat) : maxExecutions false spAttempts = 1 := by
   simp [maxExecutions]
+
+theorem C13_batch_idempotent_iff (entries : List Bool) : batchIdempotent entries = true ↔ ∀ e ∈ entries, e = true := by
+  simp [batchIdempotent]
 
 theorem C13_executions_bound (idem : Bool) (spAttempts : Nat) : maxExecutions idem spAttempts ≤ 1 + spAttempts := by
   unfold maxExecutions; split <;> omega
 
+/-- **shared attempt counter**: E executions of one statement run `do` concurrently, sharing the attempt counter
+    (incremented after every attempt, read by `rt.Attempt` later, not atomically) and the host iterator. For EVERY
+    schedule of their micro-steps and every outcome: with a policy `Attempts() ≤ N` the requests sent in total
+    never exceed `N - c0` + the executions launched, hence `budget (N - c0) E`; and no more executions than E run -/
+theorem C13_shared_counter_budget (p : Policy) (N : Nat) (hp : ∀ m, p.attempt m = decide (m ≤ N))
+    (c0 hosts e : Nat) (sched : List ExecutorConc.Act) :
+    let m := ExecutorConc.run (some p) (ExecutorConc.init c0 hosts e) sched
+    m.sent ≤ (N - c0) + ExecutorConc.started m.exs ∧ ExecutorConc.started m.exs ≤ e ∧
+    m.sent ≤ ExecutorConc.budget (N - c0) e :=
+  ExecutorConc.run_budget p N hp c0 hosts e sched
+
+/-- the shared host iterator hands every usable host out once: a policy that never answers `Retry` (Simple,
+    ExponentialBackoff) sends at most one request per usable host, over all executions and schedules -/
+theorem C13_shared_iterator (pol : Option Policy) (hnr : ∀ p, pol = some p → ∀ e, p.rtype e ≠ .retry)
+    (c0 hosts e : Nat) (sched : List ExecutorConc.Act) :
+    (ExecutorConc.run pol (ExecutorConc.init c0 hosts e) sched).sent ≤ hosts :=
+  ExecutorConc.run_hosts pol hnr c0 hosts e sched
+
+/-- without a retry policy every execution sends at most once: total ≤ executions launched -/
+theorem C13_shared_no_policy (c0 hosts e : Nat) (sched : List ExecutorConc.Act) :
+    let m := ExecutorConc.run none (ExecutorConc.init c0 hosts e) sched
+    m.sent ≤ ExecutorConc.started m.exs ∧ ExecutorConc.started m.exs ≤ e :=
+  ExecutorConc.run_no_policy c0 hosts e sched
+
 /-- FULL STATEMENT (fails on the unchanged code; doc.go: "Non-idempotent queries are not eligible for
-    retrying"): a query not marked idempotent is attempted at most once. `do` never looks at
+    retrying"): a statement not marked idempotent is attempted at most once. `do` never looks at
     `IsIdempotent()`: the attempts depend only on hosts, outcomes and the retry policy.
     Counterexample (known finding KF-C13-1, replayed on the real code): SimpleRetryPolicy{1}, first attempt
     fails → the second host receives the (non-idempotent) write as well. -/
 theorem C13_cex_nonidempotent_retried :
-    (doQuery (some (simplePolicy 1)) (fun _ => .err 9) 10 [⟨1, true, true⟩, ⟨2, true, true⟩] 0).attempts = [1, 2] := by
+    (doQuery ⟨.query, false⟩ (some (simplePolicy 1)) (fun _ => .err 9) 10 [⟨1, true, true⟩, ⟨2, true, true⟩] 0 0 1).attempts.map (·.host)
+      = [1, 2] := by
   decide
 
-/-- proved part: without a retry policy (the default) a non-idempotent query — like any query — is sent once -/
-theorem C13_nonidempotent_not_retried_partial (outcome : Nat → Res) (fuel : Nat) (hosts : List Host) :
-    (doQuery none outcome fuel hosts 0).attempts.length ≤ 1 := C13_no_policy_once outcome fuel hosts 0
+/-- proved part: without a retry policy (the default) a non-idempotent statement — like any statement — is sent once -/
+theorem C13_nonidempotent_not_retried_partial (req : Req) (outcome : Nat → Res) (fuel : Nat) (hosts : List Host) (k cons : Nat) :
+    (doQuery req none outcome fuel hosts k 0 cons).attempts.length ≤ 1 := C13_no_policy_once req outcome fuel hosts k 0 cons
 
-example : (doQuery (some (downgradingPolicy 2)) (fun n => if n = 0 then .err kReadTO else if n = 1 then .err 9 else .ok) 10
-    [⟨1, true, true⟩, ⟨2, false, true⟩, ⟨3, true, false⟩, ⟨4, true, true⟩] 0) = ⟨[1, 1, 4], .last .ok⟩ := by decide
+example : (doQuery ⟨.batchUnlogged, false⟩ (some (downgradingPolicyL [4, 1])) (fun n => if n = 0 then .err kReadTO else if n = 1 then .err 9 else .ok) 10
+    [⟨1, true, true⟩, ⟨2, false, true⟩, ⟨3, true, false⟩, ⟨4, true, true⟩] 0 0 6) =
+    ⟨[⟨1, 0, 6, .err 7⟩, ⟨1, 1, 4, .err 9⟩, ⟨4, 2, 1, .ok⟩], .last .ok, 3, 1⟩ := by decide
+
+/-- non-vacuity of the shared-counter bound: two executions, Simple{1}, three hosts — a schedule that reaches
+    the bound 1 + 2 -/
+example : (ExecutorConc.run (some (simplePolicy 1)) (ExecutorConc.init 0 3 2)
+    [.launch 0, .launch 1, .complete 0 (.err 9), .decide 0, .complete 1 (.err 9), .decide 1]).sent = 3 := by decide
 
 end C13
